@@ -35,6 +35,8 @@ import (
 //	          handshaking incoming connections never above the limit; every connection whose handshake failed or timed
 //	          out is closed by the client
 //	dial    - MaxPeerDial and MaxPeerAddresses with listeners that accept and never answer
+//	reqout  - MaxRequestsOut / DefaultRequestsOut against the reqq a scripted seeder advertises (absent, below, above, huge):
+//	          requests that have arrived at the seeder and are not yet answered never exceed min(max, reqq or default)
 //	rate    - SpeedLimitUpload: bytes received in T seconds <= limit * (T + 1 s of burst) + one message
 //	webseed - WebseedMaxSources / WebseedMaxDownloads with more sources in the torrent than allowed
 type SessCase struct {
@@ -60,6 +62,10 @@ type SessCase struct {
 	Addrs int      `json:"max_addresses,omitempty"`
 	// rate
 	KBps int `json:"kbps,omitempty"`
+	// reqout
+	MaxOut     int `json:"max_requests_out,omitempty"`
+	DefaultOut int `json:"default_requests_out,omitempty"`
+	Reqq       int `json:"reqq,omitempty"` // advertised by the scripted seeder (0 = not advertised)
 	// webseed
 	Sources      int `json:"sources,omitempty"`
 	MaxSources   int `json:"max_sources,omitempty"`
@@ -67,7 +73,7 @@ type SessCase struct {
 }
 
 func genSessCase(t *rapid.T) SessCase {
-	c := SessCase{Scenario: rapid.SampledFrom([]string{"queue", "queue", "ram", "ram", "ram", "ram", "accept", "dial", "rate", "webseed"}).Draw(t, "scenario")}
+	c := SessCase{Scenario: rapid.SampledFrom([]string{"queue", "queue", "ram", "ram", "ram", "ram", "accept", "dial", "rate", "webseed", "reqout"}).Draw(t, "scenario")}
 	opts := model.LayoutOpts{MaxTotal: 512 << 10, MaxPieces: 24, MaxFiles: 2, NoPadding: true, BigPieces: true}
 	switch c.Scenario {
 	case "ram":
@@ -116,6 +122,16 @@ func genSessCase(t *rapid.T) SessCase {
 			c.Kinds = append(c.Kinds, rapid.SampledFrom([]string{"silent", "silent", "good"}).Draw(t, "kind"))
 		}
 		c.Addrs = rapid.IntRange(1, 6).Draw(t, "maxAddrs")
+	case "reqout":
+		// pieces of 8-16 blocks so that a piece has more blocks than any limit under test
+		pl := uint32(rapid.SampledFrom([]int{131072, 262144, 200000}).Draw(t, "bigPL"))
+		c.L = model.Layout{Name: "big", PieceLength: pl, Single: true, Seed: c.L.Seed,
+			Files: []model.FileSpec{{Path: []string{"big"}, Length: int64(pl)*int64(rapid.IntRange(1, 3).Draw(t, "npieces")) + int64(rapid.IntRange(0, 40000).Draw(t, "tailLen"))}}}
+		c.MaxOut = rapid.IntRange(1, 8).Draw(t, "maxOut")
+		c.DefaultOut = rapid.SampledFrom([]int{0, 0, 2, 5}).Draw(t, "defaultOut")
+		c.Reqq = rapid.SampledFrom([]int{0, 1, 3, 50, 250, 2000, 65535}).Draw(t, "reqq")
+		c.BlockMs = rapid.SampledFrom([]int{2, 5}).Draw(t, "blockMs")
+		c.Seeders = rapid.IntRange(1, 2).Draw(t, "seeders")
 	case "rate":
 		c.KBps = rapid.SampledFrom([]int{32, 64, 100}).Draw(t, "kbps")
 		grow(int64(c.KBps)*1024*3 + 64<<10) // more than the limit lets through in the window
@@ -836,6 +852,107 @@ func (e *env) runDial() string {
 	return ""
 }
 
+// ---- reqout ----
+
+func (e *env) runReqOut() string {
+	c := e.c
+	e.cfg.MaxRequestsOut = c.MaxOut
+	if c.DefaultOut > 0 {
+		e.cfg.DefaultRequestsOut = c.DefaultOut
+	}
+	allowed := e.cfg.DefaultRequestsOut
+	if c.Reqq > 0 {
+		allowed = c.Reqq
+	}
+	allowed = min(allowed, c.MaxOut)
+	if msg := e.start(false, nil); msg != "" {
+		return msg
+	}
+	var pmu sync.Mutex
+	var peers []*speer.Peer
+	var lns []net.Listener
+	for k := 0; k < c.Seeders; k++ {
+		ln, err := net.Listen("tcp4", sess.IP(10+k)+":0")
+		if err != nil {
+			panic(err)
+		}
+		lns = append(lns, ln)
+		k := k
+		go func() {
+			for {
+				conn, err := ln.Accept()
+				if err != nil {
+					return
+				}
+				go func() {
+					var id [20]byte
+					copy(id[:], fmt.Sprintf("-SP0001-%012d", k))
+					p, err := speer.Accept(conn, speer.Opts{InfoHash: e.ih, PeerID: id, Fast: true, Ext: true, Reqq: int64(c.Reqq), MSEOptional: true}, 3*time.Second)
+					if err != nil {
+						return
+					}
+					pmu.Lock()
+					peers = append(peers, p)
+					pmu.Unlock()
+					speer.Serve(p, speer.Behaviour{DelayPerBlockMs: c.BlockMs}, e.F, int(e.l.PieceLength))
+				}()
+			}
+		}()
+		_ = e.tor.AddPeer(ln.Addr().String())
+	}
+	defer func() {
+		for _, ln := range lns {
+			ln.Close()
+		}
+		pmu.Lock()
+		for _, p := range peers {
+			p.Close()
+		}
+		pmu.Unlock()
+	}()
+	select {
+	case <-e.tor.NotifyComplete():
+		e.lab["reqout-completed"] = true
+	case <-time.After(15 * time.Second):
+	}
+	// requests that had arrived at the scripted seeder and were not yet answered or cancelled: a lower bound of what
+	// the client had outstanding at that moment
+	pmu.Lock()
+	defer pmu.Unlock()
+	worst := 0
+	for pi, p := range peers {
+		out := map[[3]uint32]bool{}
+		for _, ev := range p.Log() {
+			m := ev.Msg
+			key := [3]uint32{m.Index, m.Begin, m.Length}
+			switch {
+			case !ev.Out && m.Kind == "request":
+				out[key] = true
+			case !ev.Out && m.Kind == "cancel":
+				delete(out, key)
+			case ev.Out && m.Kind == "piece":
+				delete(out, [3]uint32{m.Index, m.Begin, uint32(len(m.Data))})
+			case ev.Out && m.Kind == "reject":
+				delete(out, key)
+			case ev.Out && m.Kind == "choke":
+				out = map[[3]uint32]bool{}
+			}
+			if len(out) > allowed {
+				return fmt.Sprintf("seeder %d had %d requests from the client outstanding at one moment; max-requests-out is %d, the seeder advertised reqq %d (0 = none), default-requests-out is %d: at most %d are allowed",
+					pi, len(out), c.MaxOut, c.Reqq, e.cfg.DefaultRequestsOut, allowed)
+			}
+			worst = max(worst, len(out))
+		}
+	}
+	if worst == allowed {
+		e.lab["reqout-limit-reached"] = true
+	}
+	if c.Reqq > c.MaxOut {
+		e.lab["reqout-reqq-above-max"] = true
+	}
+	return ""
+}
+
 // ---- rate ----
 
 func (e *env) runRate() string {
@@ -974,6 +1091,8 @@ func runSessCase(c SessCase) core.Result {
 		msg = e.runAccept()
 	case "dial":
 		msg = e.runDial()
+	case "reqout":
+		msg = e.runReqOut()
 	case "rate":
 		msg = e.runRate()
 	case "webseed":
